@@ -1081,7 +1081,14 @@ static ASTNode *parse_prefix_op(Stage1Parser *p) {
                 capacity *= 2;
                 args = realloc(args, sizeof(ASTNode*) * capacity);
             }
-            args[count++] = parse_expression(p);
+            int pos_before = p->pos;
+            args[count] = parse_expression(p);
+            if (!args[count] && p->pos == pos_before) {
+                /* Not an expression and nothing consumed: stop instead of looping forever */
+                parser_error(p, line, column, "Error at line %d, column %d: Invalid argument in prefix operation\n", line, column);
+                break;
+            }
+            count++;
         }
 
         if (!expect(p, TOKEN_RPAREN, "Expected ')' after prefix operation")) {
@@ -1122,7 +1129,14 @@ static ASTNode *parse_prefix_op(Stage1Parser *p) {
                 capacity *= 2;
                 args = realloc(args, sizeof(ASTNode*) * capacity);
             }
-            args[count++] = parse_expression(p);
+            int pos_before = p->pos;
+            args[count] = parse_expression(p);
+            if (!args[count] && p->pos == pos_before) {
+                /* Not an expression and nothing consumed: stop instead of looping forever */
+                parser_error(p, line, column, "Error at line %d, column %d: Invalid argument in function call\n", line, column);
+                break;
+            }
+            count++;
         }
 
         if (!expect(p, TOKEN_RPAREN, "Expected ')' after function call")) {
